@@ -1,14 +1,17 @@
 package props
 
 import (
+	"fmt"
 	"strings"
 	"testing"
 
 	"pgregory.net/rapid"
 
+	"verif/internal/ast"
 	"verif/internal/gen"
 	"verif/internal/harness"
 	"verif/internal/refcheck"
+	"verif/internal/reftypes"
 )
 
 // C05 — substructural discipline; C06 — mode independence and shift legality.
@@ -16,7 +19,7 @@ import (
 
 var substructuralMutations = []string{"binder-to-scope", "case-payload-to-scope", "binder-to-alias", "alias-to-live", "cut-reuse-self-as-name",
 	"binder-to-alias", "alias-to-live", "binder-to-alias", "alias-to-live", "binder-to-alias", "case-payload-to-scope", "binder-to-scope", "drop-statement", "dup-statement", "rename-binder",
-	"rename-use", "wait-to-drop", "insert-drop", "insert-split", "extra-provider", "swap-statements", "arity-minus", "drop-branch", "merge-binders", "merge-binders"}
+	"rename-use", "wait-to-drop", "insert-drop", "insert-split", "extra-provider", "swap-statements", "arity-minus", "drop-branch", "merge-binders", "merge-binders", "drop-statement", "drop-statement", "drop-statement", "extra-provider", "extra-provider"}
 
 var modeMutations = []string{"param-mode", "ret-mode", "ann-mode", "prc-mode", "shift-words", "ann-mode", "ret-mode", "param-mode"}
 
@@ -43,7 +46,7 @@ func checkImplication(h *harness.H, c *caseC07, class map[string]bool, what stri
 	} else {
 		h.S.Count("grits:reject")
 	}
-	if r.CheckOK && c.Expect == "reject" && class[c.Reason] {
+	if r.CheckOK && c.Expect == "reject" && inClass(class, c) {
 		f := harness.Failf("accepted although it breaks the %s (%s: %s)\n(mutation: %q)\n%s", what, c.Reason, c.Detail, c.Mutant, c.Text)
 		classifyKnown(c, f)
 		return f
@@ -51,9 +54,94 @@ func checkImplication(h *harness.H, c *caseC07, class map[string]bool, what stri
 	return nil
 }
 
+// inClass: the reference's reason belongs to the class; an ill-formed type counts by what is ill
+// about it ("ill-formed-type:illegal-shift" is a mode matter, a duplicate label is not).
+func inClass(class map[string]bool, c *caseC07) bool {
+	return class[c.Reason] || c.Reason == refcheck.IllType && class[c.Reason+":"+c.Site]
+}
+
+var modeClass = map[string]bool{refcheck.Independence: true, refcheck.ShiftMode: true,
+	refcheck.IllType + ":" + reftypes.ModeMismatch: true, refcheck.IllType + ":" + reftypes.IllegalShift: true}
+
+// independenceMatrix: one function definition whose parameters and provider range over all mode
+// combinations (`let f(p1 : m1 A1, …, pk : mk Ak) : m A = …`, also with an explicit provider), in
+// every order; the body uses every parameter up, so the only question is the declaration's own
+// judgement: every mi can be down-shifted to m.
+func independenceMatrix(rt *rapid.T, h *harness.H) *caseC07 {
+	d := gen.D{T: rt}
+	p := &ast.Program{}
+	m := ast.Mode(d.Pick(4, "provider"))
+	k := d.Int(1, 4, "nparams")
+	f := &ast.Decl{Kind: ast.DFun, Name: "f"}
+	one := func(m ast.Mode) *ast.Ty {
+		t := ast.One(m)
+		t.Ann = m.String()
+		return t
+	}
+	body := &ast.Term{Kind: ast.TClose, X: ast.SelfNm}
+	var pre []*ast.Term
+	for i := 0; i < k; i++ {
+		mi := ast.Mode(d.Pick(4, "parammode"))
+		n := fmt.Sprintf("p%d", i+1)
+		switch d.Pick(3, "paramtype") {
+		case 0, 1:
+			f.Params = append(f.Params, ast.Param{Name: n, Ty: one(mi)})
+			pre = append(pre, &ast.Term{Kind: ast.TWait, X: ast.N(n)})
+		default:
+			t := ast.Tensor(mi, ast.One(mi), ast.One(mi))
+			t.Ann = mi.String()
+			f.Params = append(f.Params, ast.Param{Name: n, Ty: t})
+			pre = append(pre, &ast.Term{Kind: ast.TRecv, X: ast.N(n + "a"), Y: ast.N(n + "b"), Z: ast.N(n)},
+				&ast.Term{Kind: ast.TWait, X: ast.N(n + "a")}, &ast.Term{Kind: ast.TWait, X: ast.N(n + "b")})
+		}
+	}
+	// the parameters are used up in a random order
+	for i := len(pre) - 1; i > 0; i-- {
+		j := d.Pick(i+1, "useorder")
+		if pre[i].Kind == ast.TWait && pre[j].Kind == ast.TWait && !strings.HasSuffix(pre[i].X.S, "a") && !strings.HasSuffix(pre[i].X.S, "b") &&
+			!strings.HasSuffix(pre[j].X.S, "a") && !strings.HasSuffix(pre[j].X.S, "b") {
+			pre[i], pre[j] = pre[j], pre[i]
+		}
+	}
+	for i := len(pre) - 1; i >= 0; i-- {
+		pre[i].K = body
+		body = pre[i]
+	}
+	f.Ty = one(m)
+	f.Body = body
+	if d.Chance(30, "explicit") {
+		f.Explicit = "w"
+		for e := f.Body; e != nil; e = e.K {
+			if e.Kind == ast.TClose {
+				e.X = ast.N("w")
+			}
+		}
+	}
+	p.Decls = append(p.Decls, f)
+	v, _ := refcheck.Program(p, true)
+	if v.Unknown {
+		h.S.Count("reference_unknown")
+		return nil
+	}
+	c := &caseC07{Text: p.Text(nil), Mutant: "independence matrix", Reason: v.Reason, Detail: v.Detail, Site: v.Site, Expect: "reject"}
+	if v.Accept {
+		c.Expect = "accept"
+	}
+	c.NonTriv = k >= 2
+	h.S.Count("independence_matrix->" + c.Expect)
+	return c
+}
+
 func genImplication(kinds []string, classOf map[string]bool) func(rt *rapid.T, h *harness.H) interface{} {
 	return func(rt *rapid.T, h *harness.H) interface{} {
 		d := gen.D{T: rt}
+		if classOf[refcheck.Independence] && d.Chance(25, "matrix") {
+			c := independenceMatrix(rt, h)
+			if c == nil {
+				return nil
+			}
+			return c
+		}
 		if d.Chance(12, "garbage") {
 			// arbitrary grammatical programs: interesting only when Grits accepts them
 			g := &gen.Syn{D: d, NoAssuming: true, ValidModesOnly: true}
@@ -80,7 +168,7 @@ func genImplication(kinds []string, classOf map[string]bool) func(rt *rapid.T, h
 				return nil
 			}
 			h.S.Count("mutation:" + c.Mutant[:strings.Index(c.Mutant, ":")] + "->" + c.Expect + ":" + c.Reason)
-			c.NonTriv = classOf[c.Reason]
+			c.NonTriv = inClass(classOf, c)
 		} else {
 			c = &caseC07{Text: p.Text(nil), Expect: "accept", Feats: g.Feat, NonTriv: false}
 		}
@@ -105,9 +193,9 @@ func TestC06(t *testing.T) {
 	harness.Run(t, harness.Prop{
 		ID:  "C06",
 		New: func() interface{} { return &caseC07{} },
-		Gen: genImplication(modeMutations, refcheck.ModeReasons),
+		Gen: genImplication(modeMutations, modeClass),
 		Check: func(h *harness.H, c interface{}) *harness.Failure {
-			return checkImplication(h, c.(*caseC07), refcheck.ModeReasons, "mode discipline (independence / shift legality)")
+			return checkImplication(h, c.(*caseC07), modeClass, "mode discipline (independence / shift legality)")
 		},
 		Size: func(c interface{}) int { return len(c.(*caseC07).Text) },
 	})
